@@ -187,6 +187,10 @@ def LEMMAS():
 # mean of its draws; all variables of its own lowest-loss draw) -- re-checked here, a cohort-wide selection fails them
 from contracts.c17 import MeanEstimator, ModeEstimator
 UNITS = [LinkedRowLocality(), Totals(), IndividualSample({"C03"}), MeanEstimator(), ModeEstimator()]
+# the adaptation of an individual's proposal scale uses that individual's own acceptance history and own scale only (contract of
+# C19 on IndividualGibbsSampler._update_std, entry by entry): borrowed, verified in C19's context
+from contracts import c19 as _c19
+UNITS += [foreign(u_, "c19") for u_ in _c19._update_std_units() if "IndividualGibbsSampler" in u_.target]
 CALLEES = [ShuffledIndices()]
 engine_setup = T.engine_setup
 ASSUMPTIONS = [
